@@ -63,8 +63,8 @@ Proof.
 Qed.
 Lemma pre_of w i c : (i < nodes)%nat -> Inv w -> In c (inbox nstate w i) -> pre nstate nodes ndev addr name good i (st nstate w i) c.
 Proof.
-  intros Hi HI Hin. pose proof (pending_foreign w i c HI Hin) as Hf. destruct HI as (I1 & _ & _). destruct (I1 i) as [G S].
-  unfold pre. split; [exact Hi|split; [exact G|split; [exact S|exact Hf]]].
+  intros Hi HI Hin. destruct HI as (I1 & I2 & _). destruct (I1 i) as [G S].
+  unfold pre. split; [exact Hi|split; [exact G|split; [exact S|exact (I2 i c Hin)]]].
 Qed.
 
 (* node p handles c; device (q,l) of another node shares the (new) address of device (p,k) *)
@@ -182,7 +182,7 @@ Proof.
   split; [congruence|split; [exact Hop|]].
   destruct (Z.lt_trichotomy (name i k) (cn c)) as [Lt|[Eq|Gt]]; [| |exact Gt].
   - exfalso. apply Hch. apply (HR3 i _ c k Hpre Hk E Hop Lt).
-  - exfalso. destruct Hpre as (_ & _ & _ & Hf). apply Hf. exists k. split; [exact Hk|congruence].
+  - exfalso. apply (pending_foreign w i c HI Hin). exists k. split; [exact Hk|congruence].
 Qed.
 End NetProofs.
 
